@@ -381,8 +381,11 @@ class Check:
             self.violations.append((path, " no-failing-input-found"))
 
     def match_finding(self, case):
-        for f in self.findings:
-            if f.get("status") != "finding" or f.get("property") != self.prop:
+        # a listed finding of ANOTHER property can show up in this property's workload (e.g. the
+        # C12 verdict on a multi-table Addition inside a C07 history): it is reported under its
+        # own property id and is not a violation of this one
+        for f in sorted(self.findings, key=lambda f: f.get("property") != self.prop):
+            if f.get("status") != "finding":
                 continue
             m = f.get("match", {})
             if m.get("cmd") and m["cmd"] != case.get("cmd"):
@@ -393,6 +396,8 @@ class Check:
                 continue
             if m.get("impl_regex") and not re.search(m["impl_regex"], case.get("impl", "")):
                 continue
+            if f.get("property") != self.prop:
+                return "\x00%s\x00%s" % (f.get("property"), f["what"])
             return f["what"]
         return None
 
@@ -414,11 +419,16 @@ class Check:
         cov.setdefault("distinct_nontrivial", 0)
         ev = {"property_id": self.prop, "tier": self.tier, "seed": self.seed, "level": level,
               "coverage": cov, "assumptions": assumptions or [], "wall_s": round(time.time() - self.t0, 2),
-              "violations": len(self.violations), "known_findings": self.known}
+              "violations": len(self.violations),
+              "known_findings": [("(finding of property %s) %s" % tuple(k.split("\x00")[1:3])) if k.startswith("\x00") else k for k in self.known]}
         with open(os.path.join(ROOT, "evidence", self.prop + ".json"), "w") as f:
             json.dump(ev, f, indent=1)
         shutil.rmtree(self.scratch, ignore_errors=True)
         for k in self.known:
+            if k.startswith("\x00"):
+                _, fp, k = k.split("\x00", 2)
+                print("KNOWN-FINDING: property=%s %s" % (fp, k))
+                continue
             print("KNOWN-FINDING: property=%s %s" % (self.prop, k))
         for path, suffix in self.violations:
             print("VIOLATION property=%s replay=%s%s" % (self.prop, path, suffix))
